@@ -501,6 +501,21 @@ func (r *e1Run) checkDAG(step, node int, why string) {
 					"node %d doc %d field %s (%s): headstore has %v, frontier of merged field commits %v", node, slot, fn, why, shortAll(fieldHeadsGot[fn]), shortAll(wantF))
 				return
 			}
+			// ... and that is what the query reports as latest for the field
+			if fieldByName(fn) != nil || strings.HasPrefix(fn, "w") {
+				data, errs := r.nodes[node].GQL(fmt.Sprintf(`query { latestCommits(docID: %q, fieldName: %q) { cid } }`, id, fn))
+				if len(errs) == 0 {
+					var got []string
+					for _, row := range rows(data, "latestCommits") {
+						got = append(got, fmt.Sprint(row["cid"]))
+					}
+					if joinSorted(got) != joinSorted(wantF) {
+						r.res.violate("C04", "heads-not-frontier", "heads-not-frontier/latestCommits-field/"+cls, step,
+							"node %d doc %d field %s (%s): latestCommits reports %v, frontier of merged field commits %v", node, slot, fn, why, shortAll(got), shortAll(wantF))
+						return
+					}
+				}
+			}
 		}
 	}
 	r.res.Stats["dag_scans"]++
